@@ -353,6 +353,15 @@ pub fn jobs_for(prop: &str, thorough: bool) -> Vec<Job> {
                 c4.nsteps = 40;
                 js.push(job(s, "5 actors", c4, None, 1000));
             }
+            for s in ["GC", "PN"] {
+                let mut c = Cfg::base(5, 30, Delivery::Any, mon::SPEC | mon::MONO);
+                c.dups = true;
+                c.merges = true;
+                c.anyk = true;
+                c.equal_vals = true;
+                c.policy = 255;
+                js.push(job(s, "huge increments: every actor's total near 2^63..2^64, sums far beyond u64", c, None, 1500));
+            }
             let mut c = Cfg::base(3, 16, Delivery::Any, mon::VOP | mon::VMERGE);
             c.misuse = true;
             c.dups = true;
